@@ -39,6 +39,24 @@ def items(tier):
                 sp["tasks"][1]["progress"] = 0.5
             for aa in (False, True):
                 out.append((sp, {"rule": "TSLACK", "auto_abs": aa, "max_time": F.seq_bound(sp) + 8}))
+    # FF/SF chains listed against the dependency direction, all reaching zero together
+    for wv in ((1, 1, 1), (3, 2, 1), (2, 2, 2)):
+        for kinds in (("FF", "FF"), ("FF", "SF"), ("SF", "FF")):
+            fl = {"tasks": [{"name": F.tname(i), "work": float(w)} for i, w in enumerate(wv)], "links": [[0, 1, kinds[0]], [1, 2, kinds[1]]]}
+            for order in ([0, 1, 2], [2, 1, 0], [1, 2, 0]):
+                sp = dict(F.with_teams(fl, "DED"), order=order)
+                out.append((sp, {"rule": "TSLACK", "max_time": F.seq_bound(sp) + 8}))
+    fl4 = {"tasks": [{"name": F.tname(i), "work": float(4 - i)} for i in range(4)], "links": [[0, 1, "FF"], [1, 2, "FF"], [2, 3, "FF"]]}
+    for order in ([0, 1, 2, 3], [3, 2, 1, 0]):
+        sp = dict(F.with_teams(fl4, "DED"), order=order)
+        out.append((sp, {"rule": "TSLACK", "max_time": F.seq_bound(sp) + 8}))
+    # teams wired through the constructor keyword only
+    for fl in list(F.flows(3, ("FS", "SS"), (1, 2)))[:: (5 if tier == "quick" else 1)]:
+        sp = F.with_teams(fl, "POOL2")
+        sp = dict(sp, teams=[dict(tm, wire="ctor") for tm in sp["teams"]])
+        out.append((sp, {"rule": "TSLACK", "max_time": F.seq_bound(sp) + 8}))
+    for sp in F.auto_component_specs():
+        out.append((sp, {"rule": "TSLACK", "max_time": F.seq_bound(sp) + 10}))
     for sp in F.fac_specs(tier, only_single_task_components=True):
         out.append((sp, {"rule": "TSLACK", "max_time": F.seq_bound(sp) + 8}))
     return out
